@@ -22,7 +22,8 @@ CLAIM = dict(
          "occurrences of that point (no other k-point contributes; repeated points with equal values average to the value) "
          "for ANY collection order, hence every slot s of the C-ordered output holds the value of the unique tabulated "
          "k-point equal to k_new[s]; find_grid returns g for every complete grid in any order with any multiplicities "
-         "(sorting, gaps, largest gap proved), in particular for every factorisation; a selected band gets the value of "
+         "(sorting, gaps, largest gap proved), in particular for every factorisation; every point of a band is written by "
+         "exactly one writer process for any number of points and processes; a selected band gets the value of "
          "THE degenerate group containing it and the columns follow the selection as given (any order, repetitions kept; "
          "'np.unique first' is proved to permute / drop columns); word and tuple components pick the same tensor element, components are "
          "linear, trace = xx..x+yy..y+zz..z, norm^2 = sum_i d_i conj(d_i) over the last axis only, get_component_list has "
@@ -37,11 +38,13 @@ TRUSTED = [
     "get_component / get_component_list, the band-group choice of Tabulator.__call__",
     "np.rint is modelled as round-half-even on exact rationals, np.sort as insertion sort, np.linalg.norm through its "
     "square (the square root is a parameter); floats are handed to the model exactly",
-    "not modelled (oracle only): TabulatorAll / TABresult.__add__ glue, __get_data_grid reshape and band selection "
+    "modelled: the chunking of the parallel text writer _savetxt (npar > 0) behind fermiSurfer / write_frmsf",
+    "not modelled (oracle only): the frmsf text layout and write_npz, TabulatorAll / TABresult.__add__ glue, __get_data_grid reshape and band selection "
     "(iband), run() collection, Formula evaluation; symmetric (irreducible) runs belong to C07",
     "tabulated values are compared with evaluate_k of the SAME tabulator at the same k-point (the property's reference)",
 ]
-RULE = ("grids with sizes 1-6 per direction (odd, even, 1), all factorisations of the dense grid, scrambled and "
+RULE = ("outputs observed through get_data, the FermiSurfer text with 0-4 writer processes (grid sizes divisible by the "
+        "number of writers or not) and the npz writer; grids with sizes 1-6 per direction (odd, even, 1), all factorisations of the dense grid, scrambled and "
         "duplicated k-point lists, off-grid and tolerance-shifted points, tensors of rank 0-3 real and complex, every "
         "component word / tuple / trace / norm / sq incl. invalid ones; non-trivial = grid with more than one point or "
         "tensor rank >= 1; distinct = distinct protocol line (corr) or (operation, grid, order, data) (oracle)")
@@ -415,6 +418,8 @@ def oracle(ctx, scale):
                                  f"operation on the stored tensor", dict(case, quantity=q, iband=sel, component=spec))
                         break
 
+    writer_oracle(ctx, W, scale)
+
     # ---- B. components on k-band results -----------------------------------------------------------------------
     for it in range(ctx.n(60, 500) * scale):
         rank = rng.choice([0, 1, 2, 3])
@@ -465,6 +470,109 @@ def longword_probe(ctx, W):
         ctx.note("observation: get_component(data, ndim=2, 'norm') raises KeyError rather than NoComponentError")
     except Exception:  # noqa
         pass
+
+
+def parse_frmsf(txt):
+    lines = txt.split("\n")
+    grid = tuple(int(x) for x in lines[0].split())
+    nband = int(lines[2])
+    recip = np.array([[float(x) for x in lines[3 + i].split()] for i in range(3)])
+    vals = np.array([float(x) for x in lines[6:] if x.strip()])
+    return grid, nband, recip, vals
+
+
+import contextlib
+
+
+@contextlib.contextmanager
+def thread_pool():
+    """starting a pool of writer PROCESSES from this (large) process costs seconds on a loaded machine: except for a few
+    cases per run the code's `multiprocessing.Pool(npar)` is given a pool of threads with the same map() contract
+    (as DESIGN 1.6 does for ray); the chunking / joining logic under test is the code's own"""
+    import multiprocessing
+    import multiprocessing.pool
+    orig = multiprocessing.Pool
+    multiprocessing.Pool = multiprocessing.pool.ThreadPool
+    try:
+        yield
+    finally:
+        multiprocessing.Pool = orig
+
+
+def writer_oracle(ctx, W, scale):
+    """the outputs written from a gridded tabulation - FermiSurfer text (TABresult.fermiSurfer, serial and with
+    npar = 1..4 writer processes) and the npz file (write_npz) - list every grid point of every selected band exactly
+    once, in C order, with its own values, for every grid size (divisible by the number of writers or not)"""
+    from wannierberri.result.tabresult import write_npz
+    rng = ctx.rng
+    tmp = os.path.join(ctx.work, "writers")
+    os.makedirs(tmp, exist_ok=True)
+    real_pools = ctx.n(1, 4)
+    for it in range(ctx.n(20, 150) * min(scale, 3)):
+        # the parallel cases use mostly grids whose number of points is NOT a multiple of the number of writers
+        npar = rng.choice([0, 1, 2, 2, 3, 3, 4, 4, 5, 7])
+        for _ in range(10):
+            g = rand_grid(rng, big=True)
+            if np.prod(g) > 60:
+                g = (g[0], g[1], 1)
+            if npar < 2 or np.prod(g) % npar != 0 or rng.random() < 0.2:
+                break
+        pts = all_points(g)
+        use_processes = npar >= 2 and real_pools > 0 and np.prod(g) % npar != 0
+        real_pools -= int(use_processes)
+        nb = 1 if use_processes else rng.randint(1, 3)
+        order = list(pts)
+        rng.shuffle(order)
+        salt = rng.randint(0, 50)
+        ranks = {"Energy": 0, "vec": 1, "ten": 2}
+        d = {q: np.array([[tensor_value(p, ib, ranks[q], False, salt) for ib in range(nb)] for p in order]) for q in ranks}
+        full = {q: np.array([[tensor_value(p, ib, ranks[q], False, salt) for ib in range(nb)] for p in pts]) for q in ranks}
+        q = None if use_processes else rng.choice([None, "vec", "vec", "ten"])
+        spec = None if q is None else rng.choice(["x", "y", "z", "norm"]) if q == "vec" else \
+            rng.choice(["xy", "zz", "trace", (2, 0)])
+        sel = rng.choice([None, rng.randrange(nb), rng.sample(range(nb), rng.randint(1, nb))])
+        ef = rng.choice([0.0, 0.25, -1.5])
+        recip = np.array([[1., 0.25, 0], [0, 2., 0], [0.5, 0, 1.5]])
+        case = dict(grid=g, nband=nb, npar=npar, quantity=q, component=spec, iband=sel, efermi=ef)
+        ctx.case(signature=("frmsf", g, nb, npar, q, str(spec), str(sel), salt), nontrivial=np.prod(g) > 1)
+        ctx.count(f"oracle.writers.npar={npar}")
+        if npar >= 2:
+            ctx.count("oracle.writers.points%writers" + ("=0" if np.prod(g) % npar == 0 else "!=0"))
+        with ctx.attempt("FermiSurfer / npz writers", case):
+            with quiet(), warnings.catch_warnings():
+                warnings.simplefilter("ignore")
+                T = mk_tab(W, np.array([[p[i] / g[i] for i in range(3)] for p in order]), d)
+                T.recip_lattice = recip
+                T.self_to_grid()
+                with (contextlib.nullcontext() if use_processes else thread_pool()):
+                    txt = T.fermiSurfer(quantity=q, component=spec, efermi=ef, npar=npar, iband=sel)
+                ctx.count("oracle.writers.pool=" + ("processes" if use_processes else "threads" if npar else "serial"))
+            bands = list(range(nb)) if sel is None else [sel] if isinstance(sel, int) else list(sel)
+            want = [full["Energy"][:, b] - ef for b in bands]
+            if q is not None:
+                X = ref_component(full[q], ranks[q], spec)
+                want += [X[:, b] for b in bands]
+            want = np.concatenate(want)
+            grid, nband, rl, vals = parse_frmsf(txt)
+            if grid != tuple(g) or nband != len(bands) or np.abs(rl - recip).max() > 1e-7:
+                ctx.fail(f"frmsf header: grid {grid}, {nband} bands, expected {g}, {len(bands)} bands", case)
+            elif vals.shape != want.shape:
+                ctx.fail(f"frmsf text has {len(vals)} values instead of {len(want)} "
+                         f"({len(bands)} bands x {2 if q else 1} blocks x {len(pts)} grid points): grid points are "
+                         f"missing or repeated", case)
+            elif np.abs(vals - want).max() > 1e-7:
+                ctx.fail("frmsf text does not list the grid points in C order with their own values "
+                         f"(first difference at entry {int(np.argmax(np.abs(vals - want) > 1e-7))})", case)
+            # the binary writer
+            name = os.path.join(tmp, f"w{it}")
+            with quiet():
+                write_npz(name, quantities=list(ranks), res=T, suffix="s")
+            z = np.load(name + "-s.npz")
+            for qq in ranks:
+                wantq = full[qq].reshape(tuple(g) + (nb,) + (3,) * ranks[qq])
+                if z[qq].shape != wantq.shape or np.abs(z[qq] - wantq).max() > 1e-12:
+                    ctx.fail(f"write_npz: {qq} in the npz file is not the grid in C order with its own values", case)
+            os.remove(name + "-s.npz")
 
 
 def rand_selection(rng, nw, kind=None):
